@@ -467,6 +467,21 @@ package helper
 // relative to the assumed contract of encoding/json.Decoder (Decode merges into its destination: only a destination
 // holding the zero value is known to end up as the decoded element): the k-th value delivered is the k-th element of
 // the document decoded into a fresh zero value - jsonelem(result, r, k) - so no element inherits state from an earlier one
+// ---- ChanToJSON (C11): what reaches the writer is "[", the encodings of the values in order separated by single ",",
+// and "]" - relative to a ghost log of the Write calls made on w (nwr, wlen, wbyte, wjson) and json.Marshal as an
+// uninterpreted encoding; element k is write number 1 + 2k after the opening bracket, the comma before it 2k
+//@ func ChanToJSON
+//@ requires consumed(c) == 0
+//@ ensures[C11] "bracketed-comma-separated-encodings" result == nil ==> consumed(c) == len(c) && nwr(w) == old(nwr(w)) + 2 + (len(c) == 0 ? 0 : 2 * len(c) - 1)
+//@ ensures[C11] "opens-with-a-bracket" result == nil ==> wlen(w, old(nwr(w))) == 1 && wbyte(w, old(nwr(w)), 0) == 91
+//@ ensures[C11] "closes-with-a-bracket" result == nil ==> wlen(w, nwr(w) - 1) == 1 && wbyte(w, nwr(w) - 1, 0) == 93
+//@ ensures[C11] "every-value-encoded-in-order" result == nil ==> (forall k :: 0 <= k && k < len(c) ==> wjson(w, old(nwr(w)) + 1 + 2 * k, c[k]))
+//@ ensures[C11] "single-comma-between-values" result == nil ==> (forall k :: 1 <= k && k < len(c) ==> wlen(w, old(nwr(w)) + 2 * k) == 1 && wbyte(w, old(nwr(w)) + 2 * k, 0) == 44)
+//@ loop#0 invariant first == (consumed(c) == 0) && nwr(w) == old(nwr(w)) + 1 + (consumed(c) == 0 ? 0 : 2 * consumed(c) - 1)
+//@ loop#0 invariant wlen(w, old(nwr(w))) == 1 && wbyte(w, old(nwr(w)), 0) == 91
+//@ loop#0 invariant forall k :: 0 <= k && k < consumed(c) ==> wjson(w, old(nwr(w)) + 1 + 2 * k, c[k])
+//@ loop#0 invariant forall k :: 1 <= k && k < consumed(c) ==> wlen(w, old(nwr(w)) + 2 * k) == 1 && wbyte(w, old(nwr(w)) + 2 * k, 0) == 44
+
 //@ func JSONToChanWithLogger
 //@ ensures[C19] "stream-is-closed-on-every-path" closed(result)
 //@ ensures[C11] "each-value-is-its-own-element-decoded-afresh" forall k :: 0 <= k && k < len(result) ==> result[k] == jsonelem(result, r, k)
